@@ -6,6 +6,7 @@ package props
 //  (c) integration on Layer B: real rollbackMitigation polling OBSERVE_SEQNO on a multi-node simnode
 
 import (
+	"os"
 	"encoding/json"
 	"fmt"
 	"strings"
@@ -372,6 +373,9 @@ type c07Step struct {
 	Persist uint64 `json:"persist"`
 	Feed    int    `json:"feed,omitempty"` // number of events the server streams on that vBucket after the step
 	Bump    bool   `json:"bump,omitempty"` // config revision bump instead of a report change
+	// Move: instead of a report change, the replica at chain index Copy (>= 1) moves to a server that holds no copy of
+	// the vBucket yet (new cluster map revision, same number of replicas); the new copy has its own report
+	Move bool `json:"move,omitempty"`
 }
 
 type c07Integ struct {
@@ -380,6 +384,9 @@ type c07Integ struct {
 	NVb        int       `json:"nvb"`
 	TmpFailPct int       `json:"tmpfail_pct"`
 	Steps      []c07Step `json:"steps"`
+	// SlowPoll: the library polls every 250 ms instead of every 4 ms (a cluster map change is then learnt between two
+	// poll rounds, as it practically always is with production intervals)
+	SlowPoll bool `json:"slow_poll,omitempty"`
 }
 
 func c07ExecInteg(sc c07Integ) (string, map[string]bool) {
@@ -396,6 +403,9 @@ func c07ExecInteg(sc c07Integ) (string, map[string]bool) {
 	defer e.close()
 	e.cfg.RollbackMitigation.Disabled = false
 	e.cfg.RollbackMitigation.Interval = 4 * time.Millisecond
+	if sc.SlowPoll {
+		e.cfg.RollbackMitigation.Interval = 250 * time.Millisecond
+	}
 	e.cfg.RollbackMitigation.ConfigWatchInterval = 10 * time.Millisecond
 	var hookN atomic.Int64
 	c.Lock()
@@ -454,6 +464,19 @@ func c07ExecInteg(sc c07Integ) (string, map[string]bool) {
 			}
 			time.Sleep(time.Millisecond)
 		}
+	}
+	// wait until the library has started over under a newer cluster map: it re-reads every failover log then
+	waitRestart := func(since time.Duration) bool {
+		deadline := time.Now().Add(5 * time.Second)
+		for time.Now().Before(deadline) {
+			for _, en := range c.Log() {
+				if en.Cmd == cmdGetFailoverLog && en.T > since {
+					return true
+				}
+			}
+			time.Sleep(time.Millisecond)
+		}
+		return false
 	}
 	// model
 	type cp = c07Copy
@@ -528,10 +551,99 @@ func c07ExecInteg(sc c07Integ) (string, map[string]bool) {
 	for _, stp := range sc.Steps {
 		vb := uint16(stp.Vb % sc.NVb)
 		since := c.Since()
-		if stp.Bump {
+		if stp.Move {
+			row := c.VbMap[vb]
+			k := stp.Copy % len(row)
+			free := -1
+			for srv := 0; srv < servers; srv++ {
+				used := false
+				for _, x := range row {
+					used = used || x == srv
+				}
+				if !used {
+					free = srv
+					break
+				}
+			}
+			if k == 0 || row[k] < 0 || free < 0 {
+				continue
+			}
+			if sc.SlowPoll {
+				// move right after a poll round: the next round under the old map is a whole interval away
+				t0 := c.Since()
+				syncCopy(vb, row[k], t0, 1)
+				syncCopy(vb, row[0], t0, 1)
+				since = c.Since()
+			}
+			c.Lock()
+			c.VbMap[vb][k] = free
+			p := c.Persist[[2]int{int(vb), free}]
+			var activeSet atomic.Bool
+			if stp.Persist > 0 {
+				// the active copy's report changes at the moment the library starts over under the new map (it re-reads
+				// the failover logs then - visible on the wire), i.e. before its first poll round under that map; the
+				// moved copy's first two answers are slow. So the active's new value is the first thing the library learns
+				// under the new map, before the moved copy has said anything. (Changing it at the instant of the move
+				// would race with the library's last rounds under the OLD map, where the old copy still counts.)
+				prev := c.Hook
+				var slow atomic.Int32
+				active := row[0]
+				c.Hook = func(en *simnodeEntry) simnodeAction {
+					if en.Cmd == cmdGetFailoverLog && en.Vb == vb && activeSet.CompareAndSwap(false, true) {
+						c.Lock()
+						c.Persist[[2]int{int(vb), active}] = [2]uint64{stp.UUID, stp.Persist}
+						c.Unlock()
+					}
+					if en.Cmd == cmdObserveSeqNo && en.Vb == vb && en.Node == free && slow.Add(1) <= 2 {
+						return simnodeAction{Kind: simnodeDelay, Delay: 40 * time.Millisecond}
+					}
+					if prev != nil {
+						return prev(en)
+					}
+					return simnodeAction{}
+				}
+			}
+			c.Unlock()
+			c.BumpRev()
+			labels["replica_moved"] = true
+			table[vb][k] = &cp{p[0], p[1]} // the copy now listed at that place has its own (possibly empty) report
+			if !waitRestart(since) {
+				return "HARNESS: the library did not start over after a cluster map change within 5 s", labels
+			}
+			time.Sleep(3 * e.cfg.RollbackMitigation.ConfigWatchInterval)
+			since = c.Since()
+			for v := 0; v < sc.NVb; v++ {
+				for _, srv := range c.VbMap[v] {
+					if srv >= 0 && !syncCopy(uint16(v), srv, since, 2) {
+						return fmt.Sprintf("vb %d: polling of server %d stopped after a replica moved", v, srv), labels
+					}
+				}
+			}
+			if stp.Persist > 0 {
+				if !activeSet.Load() {
+					return "HARNESS: no failover-log request after a cluster map change (the library did not start over?)", labels
+				}
+				table[vb][0] = &cp{stp.UUID, stp.Persist}
+				labels["replica_moved_with_active_report"] = true
+			}
+			if os.Getenv("VERIF_DEBUG") != "" {
+				for _, en := range c.Log() {
+					if en.T > since-500*time.Millisecond && (en.Cmd == cmdObserveSeqNo || en.Cmd == cmdGetFailoverLog) {
+						fmt.Printf("DBG t=%v node=%d cmd=%v vb=%d reply=%v obs=(%x,%d) repT=%v\n", en.T, en.Node, en.Cmd, en.Vb, en.Reply, en.ObsUUID, en.ObsPersist, en.RepT)
+					}
+				}
+				fmt.Println("DBG consumed", nConsumed(vb), "threshold", threshold[vb], "vbmap", c.VbMap[vb])
+			}
+			if r := rule(vb); r > threshold[vb] {
+				threshold[vb] = r
+			}
+		} else if stp.Bump {
 			c.BumpRev()
 			labels["config_bump"] = true
 			// the new generation starts from scratch and re-learns every copy
+			if !waitRestart(since) {
+				return "HARNESS: the library did not start over after a config revision bump within 5 s", labels
+			}
 			time.Sleep(3 * e.cfg.RollbackMitigation.ConfigWatchInterval)
 			since = c.Since()
 			for v := 0; v < sc.NVb; v++ {
@@ -624,7 +736,31 @@ func TestC07_Integration(t *testing.T) {
 			last[key] = stp.Persist
 			stp.Feed = rapid.SampledFrom([]int{0, 0, 1, 1, 2}).Draw(rt, "feed")
 			stp.Bump = rapid.IntRange(0, 19).Draw(rt, "bump") == 19
+			if !stp.Bump && sc.Replicas >= 1 && sc.Replicas <= 2 && rapid.IntRange(0, 7).Draw(rt, "move") == 0 {
+				stp.Move = true
+				stp.Copy = rapid.IntRange(1, sc.Replicas).Draw(rt, "movecopy")
+				if rapid.Bool().Draw(rt, "moveplain") {
+					stp.Persist = 0 // the move alone
+				}
+			}
 			sc.Steps = append(sc.Steps, stp)
+		}
+		if sc.Replicas >= 1 && sc.Replicas <= 2 && len(sc.Unassigned) == 0 && rapid.IntRange(0, 2).Draw(rt, "movetrap") == 0 {
+			// directed suffix: every replica is ahead of the active copy, one replica then moves to a fresh server, and
+			// the active copy catches up - the moved copy has not reported anything yet
+			vb := rapid.IntRange(0, sc.NVb-1).Draw(rt, "trapvb")
+			base := uint64(20 + rapid.IntRange(0, 3).Draw(rt, "trapbase"))
+			for k := 1; k <= sc.Replicas; k++ {
+				sc.Steps = append(sc.Steps, c07Step{Vb: vb, Copy: k, UUID: 0xA1, Persist: base + 5})
+			}
+			if rapid.Bool().Draw(rt, "trapslow") {
+				sc.SlowPoll = true
+				if len(sc.Steps) > 3+sc.Replicas {
+					sc.Steps = sc.Steps[len(sc.Steps)-3-sc.Replicas:] // every step costs two poll rounds
+				}
+			}
+			sc.Steps = append(sc.Steps, c07Step{Vb: vb, Copy: 0, UUID: 0xA1, Persist: base, Feed: int(base) + 4},
+				c07Step{Vb: vb, Copy: rapid.IntRange(1, sc.Replicas).Draw(rt, "trapcopy"), Move: true, UUID: 0xA1, Persist: base + 5, Feed: 1})
 		}
 		journal("C07", "c07integ", sc)
 		d, labels := c07ExecInteg(sc)
